@@ -19,7 +19,7 @@ from . import rawgeoh5
 from .kernel import H, Sim, Violation
 from .scenarios import BaseScenario
 
-KINDS = {"set_collar": 5, "set_surveys": 6, "add_depth": 14, "add_interval": 12, "add_both": 3, "query": 8, "set_tol": 2, "bad_add": 3,
+KINDS = {"set_collar": 5, "set_surveys": 6, "add_depth": 14, "add_interval": 12, "add_both": 3, "add_many": 5, "query": 8, "set_tol": 2, "bad_add": 3,
          "reopen": 5, "reopen_same": 1, "gc": 3, "drop": 2}
 POISONS = [None, None, None, "nan", "inf", "-inf", "1e300", "0.0"]
 TOLS = [None, None, 1e-4, 1e-2, 0.1, 1.0]
@@ -70,7 +70,7 @@ class DrillholeScenario(BaseScenario):
 
     def __init__(self):
         self.expected_probes = ["collar_edit_after_positions", "surveys_edit_after_positions", "depth_exact_match", "depth_near_match", "depth_new", "depth_unsorted",
-                                "interval_exact_match", "interval_near_match", "interval_new", "interval_overlap", "depth_then_interval_then_depth", "zero_length_leg",
+                                "interval_exact_match", "interval_near_match", "interval_new", "interval_overlap", "depth_then_interval_then_depth", "several_depth_logs_one_call", "zero_length_leg",
                                 "single_row_table", "first_station_below_zero", "query_beyond_end", "tol_arg", "tol_attr", "tol_default_changed", "reopen",
                                 "bad_add_raised", "no_collar_raised"]
         self.rule = ("one evaluation = one seeded history on a plain Drillhole: collar and survey-table edits (single-row tables, zero-length legs, first station at or "
@@ -407,11 +407,11 @@ class DrillholeScenario(BaseScenario):
         """Largest tolerance in play: generated depths keep clear of every existing entry by 3 x this."""
         return 3.0
 
-    def gen_depths(self, sim, st, r, tol):
+    def gen_depths(self, sim, st, r, tol, existing=None):
         """New depth-log depths: (depth as passed, model entry or None)."""
         out, used = [], []
         n = r.randint(1, 5)
-        existing = st["depths"]
+        existing = st["depths"] if existing is None else existing
         for _ in range(n):
             mode = r.choices(["exact", "near", "new"], [2, 2, 5])[0] if existing else "new"
             if mode in ("exact", "near"):
@@ -440,10 +440,10 @@ class DrillholeScenario(BaseScenario):
             sim.probe("depth_unsorted")
         return out
 
-    def gen_intervals(self, sim, st, r, tol):
+    def gen_intervals(self, sim, st, r, tol, existing=None):
         out, used = [], []
         n = r.randint(1, 4)
-        existing = st["intervals"]
+        existing = st["intervals"] if existing is None else existing
 
         def dist(a, b):
             return math.hypot(a[0] - b[0], a[1] - b[1])
@@ -500,31 +500,45 @@ class DrillholeScenario(BaseScenario):
         well = self.hole(ws, st["uid"])
         tol, kwargs, attr = self._tolerance(sim, well, r)
         data, plan = {}, []
-        for kind in kinds:
-            name = f"{'d' if kind == 'depth' else 'i'}{op_id}{'' if len(kinds) == 1 else kind[0]}"
+        # logs of one call are applied one after the other: later logs may match what earlier ones of the same call added
+        tent_depths, tent_intervals = list(st["depths"]), list(st["intervals"])
+        for j, kind in enumerate(kinds):
+            name = f"{'d' if kind == 'depth' else 'i'}{op_id}{'' if len(kinds) == 1 else '_' + str(j)}"
             if kind == "depth":
                 dtype = r.choices(["float", "int", "ref"], [6, 2, 2])[0]
-                items = self.gen_depths(sim, st, r, tol)
+                items = self.gen_depths(sim, st, r, tol, tent_depths)
                 if not items:
                     continue
-                vals = [self.gen_value(dtype, op_id, j) for j in range(len(items))]
+                vals = [self.gen_value(dtype, op_id, 10 * j + i) for i in range(len(items))]
                 spec = self._spec(dtype, vals)
                 spec["depth"] = np.asarray([it[0] for it in items], dtype=float)
+                for idx, (where, ent) in enumerate(items):
+                    if ent is None:
+                        ent = {"d": float(where), "pos": None, "vals": {}, "new": True}
+                        tent_depths.append(ent)
+                        items[idx] = (where, ent)
             else:
                 dtype = r.choices(["float", "int", "ref", "text"], [5, 2, 2, 3])[0]
-                items = self.gen_intervals(sim, st, r, tol)
+                items = self.gen_intervals(sim, st, r, tol, tent_intervals)
                 if not items:
                     continue
-                vals = [self.gen_value(dtype, op_id, j) for j in range(len(items))]
+                vals = [self.gen_value(dtype, op_id, 10 * j + i) for i in range(len(items))]
                 spec = self._spec(dtype, vals)
                 ft = [[it[0][0], it[0][1]] for it in items]
                 spec["from-to"] = ft if r.random() < 0.3 else np.asarray(ft, dtype=float)
+                for idx, (where, ent) in enumerate(items):
+                    if ent is None:
+                        ent = {"f": float(where[0]), "t": float(where[1]), "pos_f": None, "pos_t": None, "vals": {}, "new": True}
+                        tent_intervals.append(ent)
+                        items[idx] = (where, ent)
             spec.update(attr)
             data[name] = spec
             plan.append((kind, name, dtype, items, vals))
         if not data:
             del well
             return "skipped"
+        if len([p for p in plan if p[0] == "depth"]) > 1:
+            sim.probe("several_depth_logs_one_call")
         expect_raise = st["collar"] is None
         try:
             well.add_data(data, **kwargs)
@@ -541,22 +555,16 @@ class DrillholeScenario(BaseScenario):
             return "accepted_without_collar"
         path = Path(st["collar"], st["surveys"])
         st["queried"] = True
+        st["depths"], st["intervals"] = tent_depths, tent_intervals
         for kind, name, dtype, items, vals in plan:
             st["logs"][name] = {"kind": kind, "dtype": dtype}
             for (where, ent), val in zip(items, vals):
-                if kind == "depth":
-                    if ent is None:
-                        ent = {"d": float(where), "pos": path.at(float(where)) if path.judged(float(where)) else None, "vals": {}}
-                        st["depths"].append(ent)
-                    ent["vals"][name] = val
-                else:
-                    if ent is None:
-                        frm, to_ = float(where[0]), float(where[1])
-                        ent = {"f": frm, "t": to_, "pos_f": path.at(frm), "pos_t": path.at(to_), "vals": {}}
-                        if not path.judged(to_) or not path.judged(frm):
-                            ent["pos_f"] = ent["pos_t"] = None
-                        st["intervals"].append(ent)
-                    ent["vals"][name] = val
+                if ent.pop("new", False):
+                    if kind == "depth":
+                        ent["pos"] = path.at(ent["d"]) if path.judged(ent["d"]) else None
+                    elif path.judged(ent["f"]) and path.judged(ent["t"]):
+                        ent["pos_f"], ent["pos_t"] = path.at(ent["f"]), path.at(ent["t"])
+                ent["vals"][name] = val
         st["history"].append("+".join(kinds))
         if st["history"][-3:] == ["depth", "interval", "depth"]:
             sim.probe("depth_then_interval_then_depth")
@@ -572,6 +580,10 @@ class DrillholeScenario(BaseScenario):
         kinds = ["depth", "interval"]
         r.shuffle(kinds)
         return self._add(sim, ws, st, cfg, r, op_id, kinds)
+
+    def do_add_many(self, sim, ws, st, cfg, r, op_id):
+        # several logs in ONE add_data call (several depth logs, interval logs in between)
+        return self._add(sim, ws, st, cfg, r, op_id, [r.choice(["depth", "depth", "interval"]) for _ in range(r.randint(2, 4))])
 
     def do_bad_add(self, sim, ws, st, cfg, r, op_id):
         well = self.hole(ws, st["uid"])
